@@ -65,8 +65,12 @@ RULE = (
     "argument placement: a0/a1/fa0/fa1 = reference, s0-s11/fs0-fs11/sp unchanged, stack bytes at/above "
     "the initial sp unchanged, only accesses inside the stack window; plus the enumeration of every "
     "supported binary op with each boundary constant on either side (f(x) = x op C, C op x) through the "
-    "whole pipeline. A wrong result is attributed to the first wrong stage (lowering / canonicalize / "
-    "backend) by re-evaluating the SSA program after those stages. L3: riscv-dialect snippets (li with "
+    "whole pipeline. A wrong result is attributed to the first wrong stage: lowering / canonicalize (SSA "
+    "program re-evaluated after those passes), regalloc (the allocated riscv_scf program executed on a "
+    "register file, SSAMachine(regmode), is already wrong; signature carries the shape of the loop-carried "
+    "values handed to the allocator) or backend (everything later). Loops whose yield operands are not "
+    "plain body-defined values (own induction variable, outside value) are only generated for L2 when "
+    "their probe is clean (`ysafe`). L3: riscv-dialect snippets (li with "
     "immediate-range boundary constants, R/I-type ALU ops, shifts, mv, zero, sp-relative lw/sw through "
     "addi chains; enumerated: every R/I/shift op x {arg, zero, li c, mv(li c)} operand shapes x boundary "
     "constants, op-of-op immediates, sub(addi), sp-relative sw/lw offset pairs; plus random snippets) through "
@@ -981,8 +985,10 @@ def apply_prealloc(module, prealloc) -> int:
 
 
 def loop_shape(module) -> str:
-    """Shape of the loop-carried values the register allocator is handed: a riscv_scf.for that yields its
-    own induction variable / a value that is not defined in its body (and is not the iter_arg itself)."""
+    """Shape of the loop-carried values the register allocator is handed (it puts iter_arg, init, yield
+    operand and result of a riscv_scf.for into ONE register): the loop yields its own induction variable /
+    a value that is not defined in its body (and is not the iter_arg itself) / a value that is defined in
+    the body while the iter_arg it replaces is still used afterwards (the two are live together)."""
     shape = "-"
     for op in module.walk():
         if op.name != "riscv_scf.for":
@@ -991,13 +997,22 @@ def loop_shape(module) -> str:
         y = block.last_op
         if y is None or y.name != "riscv_scf.yield":
             continue
+        pos = {o: i for i, o in enumerate(block.ops)}
         for barg, v in zip(block.args[1:], y.operands):
             if v is block.args[0]:
                 return "for_yields_iv"
             owner = v.owner
-            if v is not barg and not (hasattr(owner, "parent") and getattr(owner, "name", "") and
-                                      owner.parent is block):
+            if v is barg:
+                continue
+            if not (getattr(owner, "name", "") and getattr(owner, "parent", None) is block):
                 shape = "for_yields_outer"
+                continue
+            for use in barg.uses:
+                u = use.operation
+                while u is not None and u.parent is not block:
+                    u = u.parent_op()
+                if u is not None and u is not y and pos[u] > pos[owner] and shape == "-":
+                    shape = "for_yield_overlaps_iter_arg"
     return shape
 
 
